@@ -9,15 +9,9 @@
     the Reals library for the theorems of this file (and only for them — the C04 theorems keep
     N4z as a hypothesis and stay closed under the global context). *)
 From Coq Require Import ZArith Reals Floats.SpecFloat Lia Lra.
-From Flocq Require Import Core.Core IEEE754.BinarySingleNaN IEEE754.PrimFloat.
-From CJ Require Import Base Dbl PrintDefs RoundTripNum.
+From Flocq Require Import Core.Core IEEE754.BinarySingleNaN.
+From CJ Require Import Base Dbl PrintDefs RoundTripNum RoundTripFlocq.
 Local Open Scope Z_scope.
-
-Notation P := 53%Z.
-Notation E := 1024%Z.
-Notation bf := (binary_float P E).
-Local Instance Hp53 : Prec_gt_0 P := eq_refl.
-Local Instance Hm1024 : Prec_lt_emax P E := eq_refl.
 
 Lemma eps_bounded : SpecFloat.bounded P E 4503599627370496 (-104) = true. Proof. reflexivity. Qed.
 Definition eps_b : bf := B754_finite false 4503599627370496 (-104) eps_bounded.
@@ -27,9 +21,7 @@ Lemma SFmul_Bmult (x y : bf) : BinarySingleNaN.is_finite x = true -> BinarySingl
 Proof.
   destruct x as [sx|sx| |sx mx ex Hx], y as [sy|sy| |sy my ey Hy]; try discriminate; intros _ _; try reflexivity.
   cbn [Bmult B2SF SFmul]. rewrite B2SF_SF2B.
-  change (SpecFloat.binary_round_aux P E (xorb sx sy) (Z.pos (mx * my)) (ex + ey) loc_Exact)
-    with (SpecFloat.binary_round_aux FloatOps.prec FloatOps.emax (xorb sx sy) (Z.pos (mx * my)) (ex + ey) loc_Exact).
-  apply binary_round_aux_equiv.
+  apply round_aux_equiv.
 Qed.
 
 Open Scope R_scope.
